@@ -19,6 +19,8 @@ import (
 type modelCases struct {
 	n       int
 	items   []string
+	slicer  []string // lake cases: (analysed DAG, Slicer inserted?)
+	poolSK  string   // sort keys of the pool a PoolScan is written with ("" = not a lake case)
 	seen    map[string]bool
 	skipped int
 	intern  map[string]int
@@ -130,6 +132,11 @@ func (m *modelCases) op(o dag.Op) string {
 			f = "(Some " + m.expr(o.Filter) + ")"
 		}
 		return fmt.Sprintf("(OScan %s %s)", m.sortKeys(o.SortKeys), f)
+	case *dag.PoolScan:
+		if m.poolSK == "" {
+			panic(notModelled{"pool scan outside a lake case"})
+		}
+		return fmt.Sprintf("(OScan %s None)", m.poolSK)
 	case *dag.Filter:
 		return "(OFilter " + m.expr(o.Expr) + ")"
 	case *dag.Cut:
@@ -231,12 +238,48 @@ func (m *modelCases) add(analysed, final dag.Seq, panicked bool) {
 	m.n++
 }
 
-func (m *modelCases) write(path string) error {
-	var sb strings.Builder
-	sb.WriteString("From ZV Require Import Base.Prelude Model.Dag Model.Optimizer Model.OptimizerCases.\nLocal Open Scope N_scope.\n")
-	// keep the file to a reasonable size
-	items := m.items
-	const maxBytes = 900 << 10
+// addLake records one lake case: the analysed DAG of `from p | ...` and
+// whether the optimized plan has a Slicer between Lister and SeqScan.
+func (m *modelCases) addLake(analysed, final dag.Seq, keyPath string, desc bool) {
+	if len(analysed) < 2 || len(final) < 2 {
+		return
+	}
+	if _, ok := analysed[0].(*dag.PoolScan); !ok {
+		return
+	}
+	if _, ok := final[0].(*dag.Lister); !ok {
+		return
+	}
+	_, hasSlicer := final[1].(*dag.Slicer)
+	var item string
+	err := func() (err error) {
+		defer func() {
+			if r := recover(); r != nil {
+				if nm, ok := r.(notModelled); ok {
+					err = fmt.Errorf("not modelled: %s", nm.what)
+					return
+				}
+				panic(r)
+			}
+		}()
+		m.poolSK = fmt.Sprintf("[(%s, %s)]", coqBool(desc), m.path(strings.Split(keyPath, ".")))
+		defer func() { m.poolSK = "" }()
+		item = "(" + m.seq(analysed) + ",\n  " + coqBool(hasSlicer) + ")"
+		return nil
+	}()
+	if err != nil {
+		m.skipped++
+		return
+	}
+	if m.seen[item] {
+		return
+	}
+	m.seen[item] = true
+	m.slicer = append(m.slicer, item)
+	m.n++
+}
+
+func writeCases(sb *strings.Builder, name, ty string, items []string, maxBytes int) {
 	total := 0
 	for i, it := range items {
 		total += len(it)
@@ -252,16 +295,23 @@ func (m *modelCases) write(path string) error {
 		if j > len(items) {
 			j = len(items)
 		}
-		name := fmt.Sprintf("opt_cases_%d", i/chunk)
-		fmt.Fprintf(&sb, "Definition %s : list (seq * option seq) := [\n %s].\n", name, strings.Join(items[i:j], ";\n "))
-		parts = append(parts, name)
+		pn := fmt.Sprintf("%s_%d", name, i/chunk)
+		fmt.Fprintf(sb, "Definition %s : list %s := [\n %s].\n", pn, ty, strings.Join(items[i:j], ";\n "))
+		parts = append(parts, pn)
 	}
 	if len(parts) == 0 {
-		sb.WriteString("Definition opt_cases : list (seq * option seq) := [].\n")
+		fmt.Fprintf(sb, "Definition %s : list %s := [].\n", name, ty)
 	} else {
-		fmt.Fprintf(&sb, "Definition opt_cases : list (seq * option seq) := %s.\n", strings.Join(parts, " ++ "))
+		fmt.Fprintf(sb, "Definition %s : list %s := %s.\n", name, ty, strings.Join(parts, " ++ "))
 	}
-	sb.WriteString("Definition M := Eval vm_compute in (opt_mismatches opt_cases).\nPrint M.\n")
+}
+
+func (m *modelCases) write(path string) error {
+	var sb strings.Builder
+	sb.WriteString("From ZV Require Import Base.Prelude Model.Dag Model.Optimizer Model.OptimizerCases.\nLocal Open Scope N_scope.\n")
+	writeCases(&sb, "opt_cases", "(seq * option seq)", m.items, 800<<10)
+	writeCases(&sb, "slicer_cases", "(seq * bool)", m.slicer, 200<<10)
+	sb.WriteString("Definition M := Eval vm_compute in (opt_mismatches opt_cases, slicer_mismatches slicer_cases).\nPrint M.\n")
 	return os.WriteFile(path, []byte(sb.String()), 0644)
 }
 
